@@ -157,7 +157,7 @@ func metricsOps(rt *rapid.T, m *memmetrics.RTMetrics) op {
 
 func buildTarget(rt *rapid.T) target {
 	extract, _ := utils.NewExtractor("request.header.Src")
-	kind := rapid.SampledFrom([]string{"connlimit", "ratelimit", "roundrobin", "rebalancer", "cbreaker", "rtmetrics", "trace", "stack", "stack"}).Draw(rt, "target")
+	kind := rapid.SampledFrom([]string{"connlimit", "ratelimit", "roundrobin", "rebalancer", "roundrobin-sticky", "rebalancer-sticky", "cbreaker", "rtmetrics", "trace", "stack", "stack"}).Draw(rt, "target")
 	if only := simkit.Only(); only != "" {
 		kind = only
 	}
@@ -197,6 +197,43 @@ func buildTarget(rt *rapid.T) target {
 		must(rb.UpsertServer(mustURL("http://a")))
 		must(rb.UpsertServer(mustURL("http://b")))
 		return target{name: kind, h: rb, breaks: true, draw: func(rt *rapid.T) op { return balancerOps(rt, rb, rr, rb) }}
+	case "roundrobin-sticky", "rebalancer-sticky":
+		// affinity cookies for members, former members and nobody, racing with pool changes
+		cookie := func(rt *rapid.T) string {
+			return rapid.SampledFrom([]string{"", "http://a", "http://b", "http://c", "http://zzz", "%%%"}).Draw(rt, "cookie")
+		}
+		stickyServe := func(h http.Handler, src, code, c string) op {
+			return func() {
+				req := newReq(src, code)
+				if c != "" {
+					req.AddCookie(&http.Cookie{Name: "aff", Value: c})
+				}
+				h.ServeHTTP(simkit.NewRecorder(), req)
+			}
+		}
+		if kind == "roundrobin-sticky" {
+			rr, err := roundrobin.New(bottom, roundrobin.EnableStickySession(roundrobin.NewStickySession("aff")))
+			must(err)
+			must(rr.UpsertServer(mustURL("http://a")))
+			must(rr.UpsertServer(mustURL("http://b"), roundrobin.Weight(2)))
+			return target{name: kind, h: rr, draw: func(rt *rapid.T) op {
+				if rapid.Bool().Draw(rt, "sticky-req") {
+					return stickyServe(rr, drawSrc(rt), drawCode(rt), cookie(rt))
+				}
+				return balancerOps(rt, rr, rr, rr)
+			}}
+		}
+		rr := newRR(bottom)
+		rb, err := roundrobin.NewRebalancer(rr, roundrobin.RebalancerBackoff(time.Millisecond), roundrobin.RebalancerStickySession(roundrobin.NewStickySession("aff")))
+		must(err)
+		must(rb.UpsertServer(mustURL("http://a")))
+		must(rb.UpsertServer(mustURL("http://b")))
+		return target{name: kind, h: rb, breaks: true, draw: func(rt *rapid.T) op {
+			if rapid.Bool().Draw(rt, "sticky-req") {
+				return stickyServe(rb, drawSrc(rt), drawCode(rt), cookie(rt))
+			}
+			return balancerOps(rt, rb, rr, rb)
+		}}
 	case "cbreaker":
 		cb, err := cbreaker.New(bottom, "NetworkErrorRatio() > 0.3 || ResponseCodeRatio(500, 600, 0, 600) > 0.5 || LatencyAtQuantileMS(50.0) > 1000",
 			cbreaker.FallbackDuration(2*time.Millisecond), cbreaker.RecoveryDuration(3*time.Millisecond), cbreaker.CheckPeriod(time.Millisecond))
